@@ -307,9 +307,10 @@ impl<'a> Parser<'a> {
             {
                 exprs.push(e)
             }
+            // only the call that opened the list closes it: a list nested in one of its elements must not
+            self.parsing_list = false;
             exprs
         };
-        self.parsing_list = false;
         Ok(ExpressionList { first, rest })
     }
 
